@@ -14,7 +14,7 @@ from sa.exc import CANCELLED
 from sa.flow import Interp, WithEnter, call_of
 
 CLAIM = {
-    "text": "Decides the containment structure: the per-client initializer context managers of the TCP and UDP servers swallow every Exception-class token thrown at their yield (summary computed from their own bodies: except*/except Exception without re-raise for TCP, for UDP every path of __aexit__ with the argument bound to an Exception or a group of Exceptions ends in `return True`, isinstance/match/`is None` tests decided from that abstract kind); in the request-handler driving generators every call, await and yield other than the initializer itself lies inside that context, so no Exception raised by any user hook (on_connection, handle before/after any yield or while handling a thrown error, on_disconnection) or thrown in by the server can leave the per-client task; the disconnection hook is registered before the request loop on a stack inside the catch-all; per-connection set-up tasks (accepted-socket task, TLS handshake wrapper) close the socket and re-raise only non-Exception BaseExceptions; the handshake error handler is total and never raises; accept errors with ignorable/capacity errnos do not leave the accept loop. Also decided: no input-dependent exception class can leave the two request receivers or the stream server's per-client task (escape analysis with generator objects followed through receivers and attributes); every exit of the UDP per-client task has taken at least one datagram off the client's queue; socket-level shutdown calls in close paths are protected by an arm that catches every OSError. In except arms of the server / listener modules an attribute of the caught exception is read only where every caught class has it or after an isinstance() narrowing that is evaluated first; the functions on the exit path of the UDP per-client catch-all contain no destructuring of a run-time value; keyword arguments configuring the per-connection timeouts are not crossed over. Round 4: every builder of the actions sent to / thrown into a handler generator (found by what it returns) is total - nothing input-dependent and no explicit raise other than StopAsyncIteration leaves it. Round 5: the errno tables consulted by the accept loop hold errno numbers (the walrus binds the looked-up value, not a comparison); keyword arguments are neither crossed nor duplicated; the UDP per-client state machine rules of C16.single run here as well. Round 6: no serializer class keeps a stream reader / byte buffer / queue instance on self and no incremental (generator) method stores to self; the listener's error callback cannot raise one peer's socket error in another client's send. Round 7: the close path of the TLS transport (C14 typestate) runs here too: a peer that never answers close_notify does not keep the failing client's connection open.",
+    "text": "Decides the containment structure: the per-client initializer context managers of the TCP and UDP servers swallow every Exception-class token thrown at their yield (summary computed from their own bodies: except*/except Exception without re-raise for TCP, for UDP every path of __aexit__ with the argument bound to an Exception or a group of Exceptions ends in `return True`, isinstance/match/`is None` tests decided from that abstract kind); in the request-handler driving generators every call, await and yield other than the initializer itself lies inside that context, so no Exception raised by any user hook (on_connection, handle before/after any yield or while handling a thrown error, on_disconnection) or thrown in by the server can leave the per-client task; the disconnection hook is registered before the request loop on a stack inside the catch-all; per-connection set-up tasks (accepted-socket task, TLS handshake wrapper) close the socket and re-raise only non-Exception BaseExceptions; the handshake error handler is total and never raises; accept errors with ignorable/capacity errnos do not leave the accept loop. Also decided: no input-dependent exception class can leave the two request receivers or the stream server's per-client task (escape analysis with generator objects followed through receivers and attributes); every exit of the UDP per-client task has taken at least one datagram off the client's queue; socket-level shutdown calls in close paths are protected by an arm that catches every OSError. In except arms of the server / listener modules an attribute of the caught exception is read only where every caught class has it or after an isinstance() narrowing that is evaluated first; the functions on the exit path of the UDP per-client catch-all contain no destructuring of a run-time value; keyword arguments configuring the per-connection timeouts are not crossed over. Round 4: every builder of the actions sent to / thrown into a handler generator (found by what it returns) is total - nothing input-dependent and no explicit raise other than StopAsyncIteration leaves it. Round 5: the errno tables consulted by the accept loop hold errno numbers (the walrus binds the looked-up value, not a comparison); keyword arguments are neither crossed nor duplicated; the UDP per-client state machine rules of C16.single run here as well. Round 6: no serializer class keeps a stream reader / byte buffer / queue instance on self and no incremental (generator) method stores to self; the listener's error callback cannot raise one peer's socket error in another client's send. Round 7: the close path of the TLS transport (C14 typestate) runs here too: a peer that never answers close_notify does not keep the failing client's connection open. Round 10: on the exit path of the UDP per-client catch-all the exception-group API (.exceptions / .split / .subgroup / .derive) is used only on values that can be groups (not on a parameter declared with a non-group member, not on the subject of a `case <OtherClass>()` arm, and no such subject is passed to a parameter declared as a group).",
     "note": "Trusted: task-group semantics; calls made *inside* except/finally arms of the set-up tasks (logging, forceful close) and the pre-yield part of the initializers do not raise (listed in the evidence as residual assumptions). Not decided: liveness (that healthy clients are answered); behaviour for non-Exception BaseExceptions (by design they stop the server).",
     "technique": "exception-containment analysis by abstract interpretation over an exception-aware structured CFG with computed context-manager swallow summaries and an exception-class lattice; isinstance() tests on the caught exception are decided from the handler's token",
 }
@@ -554,6 +554,112 @@ def check_error_path_constructs(eng, run):
     run.floor("C17.hook functions on the catch-all exit path", n, 2)
 
 
+_GROUPS = {"ExceptionGroup", "BaseExceptionGroup"}
+_GROUP_API = {"exceptions", "split", "subgroup", "derive"}
+
+
+def _ann_members(ann):
+    """members of a `A | B` / Union[A, B] / Optional[A] annotation, as the bare class names"""
+    if ann is None:
+        return None
+    if isinstance(ann, ast.BinOp) and isinstance(ann.op, ast.BitOr):
+        return (_ann_members(ann.left) or []) + (_ann_members(ann.right) or [])
+    if isinstance(ann, ast.Subscript):
+        head = (dotted(ann.value) or "").split(".")[-1]
+        if head == "Union":
+            el = ann.slice.elts if isinstance(ann.slice, ast.Tuple) else [ann.slice]
+            return [m for e in el for m in (_ann_members(e) or [])]
+        if head == "Optional":
+            return (_ann_members(ann.slice) or []) + ["None"]
+        return [head]
+    if isinstance(ann, ast.Constant) and ann.value is None:
+        return ["None"]
+    if isinstance(ann, ast.Constant) and isinstance(ann.value, str):
+        try:
+            return _ann_members(ast.parse(ann.value, mode="eval").body)
+        except SyntaxError:
+            return None
+    d = dotted(ann)
+    return [d.split(".")[-1]] if d else None
+
+
+def _arm_kind(fn_node, node, var):
+    """'group' / 'other' / None: is `node` inside a `case <Group>()` arm (or an isinstance(var, <Group>) then-arm) on `var`, or inside an
+    arm whose class pattern names another class (then `var` is definitely not a group there)?  innermost arm wins."""
+    best = None
+    for m in ast.walk(fn_node):
+        if isinstance(m, ast.Match) and isinstance(m.subject, ast.Name) and m.subject.id == var:
+            for case in m.cases:
+                if not any(node is x for b in case.body for x in ast.walk(b)):
+                    continue
+                pat = case.pattern
+                while isinstance(pat, ast.MatchAs) and pat.pattern is not None:
+                    pat = pat.pattern
+                if isinstance(pat, ast.MatchClass):
+                    name = (dotted(pat.cls) or "").split(".")[-1]
+                    kind = "group" if name in _GROUPS else "other"
+                    # a re-binding of the subject inside the arm (`a, exc_val = exc_val.split(...)`) ends what the pattern says about it
+                    rebound = any(isinstance(x, ast.Name) and isinstance(x.ctx, ast.Store) and x.id == var and x.lineno < getattr(node, "lineno", 0)
+                                  for b in case.body for x in ast.walk(b))
+                    best = (m.lineno, None if rebound else kind) if best is None or m.lineno > best[0] else best
+        if isinstance(m, ast.If) and isinstance(m.test, ast.Call) and dotted(m.test.func) == "isinstance" and len(m.test.args) == 2 \
+                and isinstance(m.test.args[0], ast.Name) and m.test.args[0].id == var and any(node is x for b in m.body for x in ast.walk(b)):
+            names = {(dotted(e) or "").split(".")[-1] for e in (m.test.args[1].elts if isinstance(m.test.args[1], ast.Tuple) else [m.test.args[1]])}
+            if names and names <= _GROUPS:
+                best = (m.lineno, "group") if best is None or m.lineno > best[0] else best
+    return best[1] if best else None
+
+
+def check_group_api_on_the_catch_all(eng, run):
+    """the exception-group API (.exceptions / .split / .subgroup / .derive) is used, on the exit path of the UDP per-client catch-all, only on
+    values that can be groups: not on a parameter whose declared type has a non-group member (unless narrowed by a `case <Group>()` arm or an
+    isinstance test), not on the subject of a `case <OtherClass>()` arm, and no call site passes the subject of such an arm to a parameter
+    declared as a group.  Otherwise the AttributeError is raised *by* the catch-all, leaves the client task and stops the server."""
+    ctx = eng.db.module("servers.async_udp").classes.get("_ClientContext")
+    ax = ctx.methods.get("__aexit__") if ctx else None
+    if ax is None:
+        raise AnalysisError("anchor vanished: servers.async_udp._ClientContext.__aexit__")
+    todo, seen, n = [ax], set(), 0
+    while todo:
+        fn = todo.pop()
+        if fn.qualname in seen:
+            continue
+        seen.add(fn.qualname)
+        n += 1
+        a = fn.node.args
+        params = {p.arg: p.annotation for p in a.posonlyargs + a.args + a.kwonlyargs}
+        bad = []
+        for x in own_nodes(fn.node):
+            if isinstance(x, ast.Attribute) and x.attr in _GROUP_API and isinstance(x.value, ast.Name):
+                v = x.value.id
+                kind = _arm_kind(fn.node, x, v)
+                if kind == "group":
+                    continue
+                if kind == "other":
+                    bad.append((x, f"`{v}.{x.attr}` is read in a `case` arm that matched `{v}` against a class that is not an exception group"))
+                    continue
+                members = _ann_members(params.get(v)) if v in params else None
+                if members and any(m in _GROUPS for m in members) and any(m not in _GROUPS for m in members):
+                    bad.append((x, f"`{v}.{x.attr}` is read although `{v}` is declared `{ast.unparse(params[v])}`: the non-group member has no `{x.attr}`"))
+            if isinstance(x, ast.Call) and isinstance(x.func, ast.Attribute) and dotted(x.func.value) == fn.self_name:
+                m = ctx.find_method(x.func.attr)
+                if m is None or isinstance(m.node, ast.Lambda):
+                    continue
+                todo.append(m)
+                ma = m.node.args
+                mparams = (ma.posonlyargs + ma.args)[1:]
+                for i, arg in enumerate(x.args):
+                    if i >= len(mparams) or not isinstance(arg, ast.Name):
+                        continue
+                    pm = _ann_members(mparams[i].annotation)
+                    if pm and all(q in _GROUPS for q in pm) and _arm_kind(fn.node, arg, arg.id) == "other":
+                        bad.append((x, f"`{arg.id}`, matched against a class that is not an exception group, is passed to `{m.name}({mparams[i].arg}: {ast.unparse(mparams[i].annotation)})`"))
+        for x, why in bad[:2]:
+            run.finding("C17.hook", fn, _stmt_at(fn, x.lineno), why + ": the AttributeError is raised *by* the per-client catch-all, leaves the client task and stops the server for every client")
+        run.ob("C17.hook", f"{fn.short}:group-api-only-on-groups-in-the-catch-all", not bad)
+    run.floor("C17.hook functions on the catch-all exit path (group API)", n, 2)
+
+
 def check_serializers_hold_no_stream_state(eng, run):
     """one serializer object serves every connection of a server: what belongs to *one* stream (the reader that accumulates a partial
     frame, a scratch buffer, a decompressor) is created per call of the incremental methods, never kept on the serializer.  No
@@ -600,6 +706,7 @@ def run(eng, run):
     run.attempt(check_progress, eng, run)
     run.attempt(check_close_raises, eng, run)
     run.attempt(check_error_path_constructs, eng, run)
+    run.attempt(check_group_api_on_the_catch_all, eng, run)
     run.attempt(check_errno_tables, eng, run)
     run.attempt(check_serializers_hold_no_stream_state, eng, run)
     from rules import c16 as _c16b
@@ -726,4 +833,12 @@ MUTANTS += [
             "C17.hook", why="IPv6 address 4-tuple: ValueError raised by the catch-all itself stops the server (seed C17-8)"),
     Variant("tls-listener-timeouts-crossed", _TLSL, _cross_tls_timeouts, "C17.setup",
             why="the configured handshake timeout no longer bounds a stalled handshake (seed C17-7)"),
+]
+
+
+MUTANTS += [
+    Variant("udp-closed-client-error-passed-bare", _UDPCTX, lambda fn: replace_expr(fn, "ExceptionGroup('', [exc_val])", "exc_val"), "C17.hook",
+            why="a bare ClientClosedError reaches a helper written for groups: one more edit there (exc.exceptions) and the catch-all itself raises"),
+    Variant("udp-group-api-on-the-bare-error", _UDPCTX, lambda fn: replace_expr(fn, "ExceptionGroup('', [exc_val])", "ExceptionGroup('', list(exc_val.exceptions))"), "C17.hook",
+            why="AttributeError raised by the catch-all: the server stops for every client"),
 ]
